@@ -25,7 +25,8 @@ def canonicalise(facts):
         p = pinned.get(a["cpath"])
         if not p or len(a.get("variants", [])) != 1:
             continue
-        cur = [(f["name"], types[f["ty"]]["s"]) for f in a["variants"][0]["fields"]]
+        cur = [(f["name"], inline.norm_ty(types[f["ty"]]["s"])) for f in a["variants"][0]["fields"]]
+        p = [(n, inline.norm_ty(t)) for n, t in p]
         cur_names = {n for n, _ in cur}
         pin_names = {n for n, _ in p}
         missing = [(i, n, t) for i, (n, t) in enumerate(p) if n not in cur_names]       # pinned names that vanished
